@@ -70,13 +70,16 @@ type ctxKey string // the key type of the cases; a plain string with the same te
 
 const closeBound = 30 * time.Second
 
-// stalls counts the cases of this process in which a Done channel stayed open for closeBound. After three of them the
-// batch is failing already (each failure is reproduced by the check in a fresh process, with the full bound), so the
-// remaining cases wait two seconds only instead of half a minute each.
+// stalls counts the cases of this process in which a Done channel stayed open for the whole bound. After three of
+// them the batch is failing already (the check runs cases of every failure class again in a fresh process, where the
+// full bound applies), so the remaining cases are only screened: two seconds, after ten stalls 50 ms each.
 var stalls atomic.Int32
 
 func closeWait() time.Duration {
-	if stalls.Load() >= 3 {
+	switch n := stalls.Load(); {
+	case n >= 10:
+		return 50 * time.Millisecond
+	case n >= 3:
 		return 2 * time.Second
 	}
 	return closeBound
